@@ -527,6 +527,32 @@ func checkSensorReaders(c *Ctx, r *Report) {
 	}
 	r.Check(okDef, name+"|unsupported", ctor.Pos(), "unsupported linearisation is an error", "no error return for non-linear sensors")
 
+	// construction never succeeds over a failure: on every path of the exported constructor
+	// (the per-kind constructors are part of its flattened view) that returns a reader, every
+	// error a module call returned was compared with nil
+	r.Rule("constructor-errors", "NewSensorReader returns a reader only on paths where every error returned by the record's accessors and the inner constructors was examined", 1)
+	{
+		okErr := true
+		var whyErr string
+		var posErr token.Pos = ctor.Pos()
+		complete := enumPaths(ctor, 1, 20000, func(p CPath) {
+			ret, isRet := p.Last().(*ssa.Return)
+			if !isRet || ret.Parent() != ctor || c.errOutcome(ctor, p) == 1 {
+				return
+			}
+			for _, call := range p.untestedErrors(func(f *ssa.Function) bool { return c.InModule(f) }, modPath) {
+				okErr = false
+				whyErr = "a reader is returned although the error of " + shortName(calleeName(&call.Call)) + " was never examined"
+				posErr = call.Pos()
+			}
+		})
+		if !complete {
+			r.Unk(name+"|errors examined", ctor.Pos(), "too many paths")
+		} else {
+			r.Check(okErr, name+"|errors examined", posErr, "every module error is compared with nil before a reader is returned", whyErr)
+		}
+	}
+
 	// Read methods
 	r.Rule("read-flags", "Read converts the raw byte only after ReadingUnavailable tested false (else the reading-unavailable sentinel) and then ScanningEnabled tested true (else the scanning-disabled sentinel); the raw byte goes through the record's parser and factors; the linearised reader applies its lineariser to the linear result", 4)
 	// the two reader types are whatever implements SensorReader: the linearised one is the
